@@ -12,7 +12,7 @@ Traces == File.traces
 VARIABLES heap, out, tid, l, aux
 tvars == <<heap, out, tid, l, aux>>      \* aux: other objects given to computations (dissimilarities), as opaque values
 
-C == INSTANCE Continuum WITH Obj <- 1..File.nobj, Zero <- File.zero, EmitEdges <- FALSE, Mutant <- "none"
+C == INSTANCE Continuum WITH Obj <- 1..File.nobj, Zero <- File.zero, EmitEdges <- FALSE, Mutant <- "none", CarryAll <- FALSE
 
 T == Traces[tid]
 E == T[l]                      \* the line being consumed
